@@ -75,4 +75,8 @@ def main(tier):
     jobs = [('cmd.VerifC10RejectedLine', dict(fixlen={'line': L}, unwind=60, timeout_ms=120000, terminal_obligations=(), hooks={'fixed_map_order': True, 'compact': True})) for L in range(4, 7)]
     rs, viol = ck.run('rejected-line', jobs, bounds={'line_len': '4..6 over {# ! < > blank a}'})
     ck.triage(viol)
+    # translator validation for the strings.Fields contract model (used when a formatter splits directive arguments)
+    jobs = [('cmd.VerifFieldsModel', dict(fixlen={'line': L}, unwind=40, timeout_ms=120000, terminal_obligations=(), hooks={'fixed_map_order': True})) for L in range(0, 7)]
+    rs, viol = ck.run('fields-model', jobs, bounds={'line_len': '0..6 ASCII'})
+    ck.triage(viol)
     return ck.finish()
